@@ -134,6 +134,28 @@ def loopAlone : Nat → Srv → Nat → Option Nat
     | [] => none
     | e :: _ => (step false s e).bind fun s' => loopAlone fuel s' (k + 1)
 
+
+/-- c13e `<n> <delay>`: revocation while accept keeps failing. -/
+def handleShutdownEmfile (args : List String) (obs : String) : String :=
+  match args.mapM String.toNat? with
+  | some [n, _] =>
+    -- accept failed, the loop sleeps with its token; the permit is revoked; the loop runs alone
+    let s0 := run false (Srv.new n) [.grant, .acceptErr, .revoke]
+    let steps := s0.bind fun s => loopAlone 8 s 0
+    let b := fun (x : Bool) => if x then "1" else "0"
+    let bounded := match steps with
+      | some k => k ≤ 3
+      | none => false
+    let model := s!"starved=1 early=0 stopped={b steps.isSome} bounded={b bounded} late=refused"
+    let verdict :=
+      if obs.startsWith "no-prlimit" ∨ obs.startsWith "noconn" ∨ field obs "starved" != "1" then "free" else
+      let fails := (if field obs "early" != "0" then ["stopped-before-revocation"] else []) ++
+        (if field obs "stopped" != "1" ∨ field obs "bounded" != "1" then ["stop-signal-late"] else []) ++
+        (if field obs "stopped" == "1" ∧ field obs "late" != "refused" then ["listener-not-released"] else [])
+      if fails.isEmpty then "ok" else "FAIL:" ++ ",".intercalate fails ++ ":"
+    model ++ "\t" ++ verdict
+  | _ => "bad-case\tFAIL:bad-case"
+
 def respLen (p : Char) (i : Nat) : Nat :=
   if p.toLower == 'i' ∨ p.toLower == 'h' then 2 else if p == 'r' then 5 + (toString i).length else if p == 'b' then 7 else 6 * 1024 * 1024
 
